@@ -333,3 +333,9 @@ refactor("rf-memoised-bitmap-list", ISO,
          "def _get_bitmap_list(binary_bitmap):\n",
          "import functools\n\n\n@functools.lru_cache(maxsize=256)\ndef _get_bitmap_list(binary_bitmap):\n",
          "a pure helper memoised with lru_cache: warm runs execute fewer lines than cold ones, results are identical")
+
+# ---- non-termination outside the decoders: must be reported (bounded), not hang the check ------------------
+mut("c05-nosize-read-spins-at-eof", "C05", MC,
+    "            if not block:  # eof\n                break",
+    "            if not block and not read_all:  # eof\n                break",
+    note="a read with no size never returns once the file is exhausted (every history ending in read() hangs): the check must report it within minutes")
